@@ -27,6 +27,7 @@ type input struct {
 	Signer  *signerIn  `json:"signer,omitempty"`
 	Queue   *queueIn   `json:"queue,omitempty"`
 	Ingress *ingressIn `json:"ingress,omitempty"`
+	Account *accountIn `json:"account,omitempty"`
 }
 
 func canon(v interface{}) string {
@@ -85,6 +86,25 @@ func corpus() []input {
 			{Full: true, Leader: true, Add: []ingSpec{a, c}},
 			{Full: true, Leader: true, Del: []string{"c"}}}}},
 	)
+	// account life cycle: the first load fails once (directory answers 503), then the cause clears
+	// and a storage appears; the acme configuration is removed and configured again; another
+	// account fails to load and the first one is configured back
+	acq := func(name string, doms ...string) qop { return qop{Op: "acquire", Name: name, Domains: doms} }
+	ins = append(ins,
+		input{Kind: "account", Account: &accountIn{Steps: []acctStep{
+			{Server: "503", Cfg: 1, Full: true, Leader: true, Acqs: []qop{acq("d/s1", "a.example")}},
+			{Server: "up", Cfg: 1, Leader: true, Dirty: []string{}, Acqs: []qop{acq("d/s2", "b.example")}},
+			{Server: "up", Cfg: 1, Leader: true, Dirty: []string{"d/s2"}, Acqs: []qop{acq("d/s2", "b.example", "c.example")}}}}},
+		input{Kind: "account", Account: &accountIn{Steps: []acctStep{
+			{Server: "up", Cfg: 1, Full: true, Leader: true, Acqs: []qop{acq("d/s1", "a.example")}},
+			{Server: "up", Cfg: 0, Leader: true, Dirty: []string{}},
+			{Server: "up", Cfg: 1, Leader: true, Dirty: []string{}, Acqs: []qop{acq("d/s2", "b.example")}}}}},
+		input{Kind: "account", Account: &accountIn{Steps: []acctStep{
+			{Server: "up", Cfg: 1, Full: true, Leader: true, Acqs: []qop{acq("d/s1", "a.example")}},
+			{Server: "closed", Cfg: 3, Leader: true, Dirty: []string{}},
+			{Server: "up", KeyErr: true, Cfg: 1, Leader: true, Dirty: []string{}},
+			{Server: "up", Cfg: 1, Leader: true, Dirty: []string{}, Acqs: []qop{acq("d/s2", "b.example")}}}}},
+	)
 	return ins
 }
 
@@ -126,6 +146,13 @@ func main() {
 		}
 		for i := 0; i < nI; i++ {
 			inputs = append(inputs, input{Kind: "ingress", Ingress: genIngress(rng)})
+		}
+		nA := o.Count(600, 20000)
+		if o.Search {
+			nA = 10000
+		}
+		for i := 0; i < nA; i++ {
+			inputs = append(inputs, input{Kind: "account", Account: genAccount(rng)})
 		}
 	}
 	for _, in := range inputs {
@@ -184,6 +211,25 @@ func main() {
 			if k, what := oracleIngress(in.Ingress, obs); k != "" {
 				res.Count("oracle_fail_" + k)
 				res.Fail(hx.Failure{Key: "C17/" + k, What: what, Input: in, Observed: obs})
+			}
+		case "account":
+			obs := runAccount(in.Account)
+			res.Seen(canon(in), len(in.Account.Steps) >= 2)
+			res.Count("account")
+			for _, st := range in.Account.Steps {
+				if !envOK(st) {
+					res.Count("account_history_with_failed_load")
+					break
+				}
+			}
+			res.Sample(7, map[string]interface{}{"input": in, "observed": obs})
+			res.OracleChecks++
+			if k, what := oracleAccount(in.Account, obs); k != "" {
+				res.Count("oracle_fail_" + k)
+				res.Fail(hx.Failure{Key: "C17/" + k, What: what, Input: in, Observed: obs})
+			}
+			if !o.Search {
+				cw.Add(func(id int) string { return coqAccount(id, in.Account, obs, theFakeACME) }, in)
 			}
 		default:
 			panic("unknown input kind " + in.Kind)
